@@ -302,7 +302,7 @@ func lists(r *ev.Run) {
 	r.Extra("lists_exhaustive_up_to_len", maxLen)
 	// longer lists over a wider alphabet, sampled
 	wide := alphabet + "PMBU"
-	k := r.N(6000, 300000)
+	k := r.N(30000, 300000)
 	for i := 0; i < k; i++ {
 		id := fmt.Sprintf("c14/long/%d", i)
 		if !r.Want(id) {
@@ -440,7 +440,7 @@ func rv(v interface{}) reflect.Value {
 
 func formats(r *ev.Run) {
 	ms := fMethods()
-	k := r.N(8000, 200000)
+	k := r.N(40000, 300000)
 	for i := 0; i < k; i++ {
 		id := fmt.Sprintf("c14/fmt/%d", i)
 		if !r.Want(id) {
